@@ -12,6 +12,7 @@ RULE = ("pairs with ratio in [0.3,0.9]x minimum (need several default-mode steps
         "identical (colour, True); very_readable success => ordinary success for the same mode/size. Non-trivial = pair below the "
         "minimum for which the stronger request succeeded with a changed colour; distinct = (text,bg,large,relation).")
 ASSUMPTIONS = ["the library itself under the other setting is the reference (differential)"]
+ENUMERATED = {"quick": [], "thorough": ["every third grey level squared x all 12 configurations"]}
 MUST_OBSERVE = {"any": ["rel_mode_judged", "rel_vr_judged", "premise_mode1_success", "premise_vr_success"]}
 SIZES = {"quick": dict(pairs=600), "thorough": dict(pairs=9000)}
 
@@ -48,7 +49,10 @@ def classes(rnd, n):
 
 def shards(tier, seed):
     cases = PW.build_cases(seed, "c16", SIZES[tier]["pairs"], per_pair_configs=12, classes=classes)
-    return [{"kind": "pairs", "cases": c} for c in PW.chunk(cases, 64 if tier == "thorough" else 16)]
+    out = [{"kind": "pairs", "cases": c} for c in PW.chunk(cases, 64 if tier == "thorough" else 16)]
+    if tier == "thorough":
+        out += [{"kind": "pairs", "cases": c} for c in PW.chunk(PW.lattice_cases(seed, "c16", "grey", 12), 32)]
+    return out
 
 
 def judge(case, obs, rec):
